@@ -146,7 +146,10 @@ fn name_pool(rng: &mut Rng) -> String {
     let small = rng.below(12) as u64;
     let big30 = (1u64 << 30) + rng.below(3) as u64 - 1;
     let big32 = (1u64 << 32) + rng.below(3) as u64 - 1;
-    match rng.below(22) {
+    match rng.below(24) {
+        // names that start with the `$` sigil themselves (must not alias the un-prefixed, numeric or fresh name)
+        22 => ["$x", "$7", "$f3", "$$x", "$", "$foo", "$0"][rng.below(7)].to_string(),
+        23 => format!("$f{small}"),
         0 | 1 => ["x", "y", "foo", "X", "Foo", "in", "a1", "f", "ff", "fx", "g3"][rng.below(11)].to_string(),
         2 | 3 | 4 => format!("f{small}"),
         5 => format!("f0{small}"),
